@@ -7,7 +7,9 @@ import random
 from vf import core
 
 THEOREMS = ["yield_bounded_bypass", "yield_poll_loop_progress", "sched_conservation_1thread",
-            "yield_starvation_on_schedule_from"]
+            "yield_starvation_on_schedule_from", "sched_conservation", "sched_only_owner_adds",
+            "yield_bounded_bypass_nthreads", "stolen_fiber_runs_on_thief",
+            "yield_bounded_bypass_nthreads_no_allowance_refuted"]
 SPAWN, YIELD, IDLE, BLOCK, WAKE, BAL, PARK, FLIP = 1, 2, 3, 4, 5, 6, 7, 8
 SOURCES = ["src/fiber_scheduler_wsd.c", "src/work_stealing_deque.c"]
 TARGET = 1      # 1: schedule() pushes on store_to (current code); 0: schedule_from
@@ -26,6 +28,84 @@ def parse_case(case):
         progs.append([(v[i + 2 * j], v[i + 2 * j + 1]) for j in range(k)])
         i += 2 * k
     return v[1:1 + v[0]], progs
+
+
+def mt_bypass(progs, tr):
+    """(c) N kernel threads, per-thread bypass bound under work stealing (theorem
+    yield_bounded_bypass_nthreads), judged soundly from the trace alone.  owner[g] = the
+    thread that last made g READY / SAVING (it then schedules g on its own deques) or last
+    ran it.  maybe[g] = threads that called load_balance since then: g may have been
+    stolen, the interval is not judged (a steal ends it).  While g certainly sits on its
+    owner t: hand-outs of other fibers by t <= 2(n-1) + a, a = schedule_from reads of t
+    inside its own load_balance calls meanwhile (>= fibers it stole and pushed in front),
+    n = max number of fibers that were or may have been on t meanwhile."""
+    n = len(progs)
+    opidx = [0] * n
+    state, armed, owner, maybe, fresh = {}, {}, {}, {}, {}
+    bypass, allow, maxn = {}, {}, {}
+
+    def counted(g):
+        sv = state.get(g, 0)
+        return sv in (1, 2, 5) or (sv == 3 and armed.get(g))
+
+    def elig(g):
+        sv = state.get(g, 0)
+        return sv == 2 or (sv == 3 and armed.get(g))
+
+    def pop_est(t):
+        return sum(1 for g in state if counted(g) and (owner.get(g) == t or t in maybe.get(g, ())))
+
+    def upd_max():
+        for u in range(n):
+            pu = None
+            for g in state:
+                if owner.get(g) == u and elig(g) and not maybe.get(g):
+                    if pu is None:
+                        pu = pop_est(u)
+                    maxn[g] = max(maxn.get(g, 0), pu)
+
+    for (t, loc, kind, val) in tr:
+        if t < 0 or t >= n:
+            continue
+        opc = progs[t][opidx[t]][0] if opidx[t] < len(progs[t]) else 0
+        if loc == 10 + 2 * t and kind == 9 and opc not in (1, 2, 4, 5, 7, 8):   # load_balance (also inside idle)
+            for g in state:
+                if owner.get(g) == t:
+                    if elig(g):
+                        allow[g] = allow.get(g, 0) + 1
+                elif counted(g) and state.get(g) != 1:
+                    maybe.setdefault(g, set()).add(t)
+            upd_max()
+        if 200 <= loc < 300 and kind == 19:
+            f = loc - 200
+            state[f] = val
+            if val == 5:
+                armed[f] = True
+            if val in (2, 5):           # t is about to schedule f on its own store_to
+                owner[f], maybe[f], fresh[f] = t, set(), t
+                bypass[f], allow[f], maxn[f] = 0, 0, 0
+            if val == 1:                # hand-out of f by t
+                armed[f] = False
+                for g in list(state):
+                    if g != f and owner.get(g) == t and elig(g) and not maybe.get(g):
+                        if fresh.get(g) == t:       # g was made READY by this very yield: not a bypass
+                            fresh[g] = None
+                            continue
+                        bypass[g] = bypass.get(g, 0) + 1
+                        bound = 2 * max(1, maxn.get(g, 0) - 1) + allow.get(g, 0)
+                        if bypass[g] > bound:
+                            return ("fiber %d sits on thread %d's run queues and was bypassed %d times by that "
+                                    "thread (at most %d fibers on it, %d load_balance reads): bound 2(n-1)+a"
+                                    % (g, t, bypass[g], maxn.get(g, 0), allow.get(g, 0)))
+                owner[f], maybe[f] = t, set()
+                bypass[f], allow[f], maxn[f] = 0, 0, 0
+            upd_max()
+        if kind == 909:
+            opidx[t] += 1
+            for g in fresh:
+                if fresh[g] == t:
+                    fresh[g] = None
+    return None
 
 
 def monitor(case, tr, raw):
@@ -90,6 +170,8 @@ def monitor(case, tr, raw):
                     maxn[f] = 0
         if kind == 909:
             opidx[t] += 1
+    if n > 1:
+        return mt_bypass(progs, tr)
     return None
 
 
@@ -141,6 +223,23 @@ def gen_cases(ctx, tier):
             prog = prog[:60]
             cases.append(core.fmt_case([3000, TARGET], [prog], []))
     n2 = len(cases) - n1
+    # several kernel threads, each yielding among its own fibers (per-thread bypass bound; occasional load_balance
+    # by a running fiber = the stealing allowance; a steal ends the interval of the stolen fiber)
+    for nt in (2, 3):
+        for rep in range(25 if tier == "quick" else 150):
+            progs = []
+            per = rng.randint(2, 4)
+            for t in range(nt):
+                mine = [f for f in range(1, nt * per + 1) if f % nt == t]
+                p = [(SPAWN, f) for f in mine] + [(IDLE, 0)]
+                for _ in range(rng.randint(10, 40)):
+                    p.append((rng.choice([YIELD] * 12 + [BAL, BLOCK, WAKE]), rng.choice(mine)))
+                    if p[-1][0] == BLOCK and rng.random() < 0.5:
+                        p.append((WAKE, rng.choice(mine)))
+                progs.append(p[:60])
+            length = rng.randint(50, 40 * sum(len(p) for p in progs))
+            cases.append(core.fmt_case([4000, TARGET], progs, core.random_sched(rng, nt, length, rng.randrange(3))))
+    n3 = len(cases) - n1 - n2
     nrand = 1200 if tier == "quick" else 30000
     for _ in range(nrand):
         nt = rng.choice([1, 2, 2, 3, 3, 4])
@@ -159,6 +258,7 @@ def gen_cases(ctx, tier):
         length = rng.randint(5, 30 * sum(len(p) for p in progs))
         cases.append(core.fmt_case([4000, TARGET], progs, core.random_sched(rng, nt, length, rng.randrange(3))))
     ctx.coverage["case_distribution"] = {"single_thread_yield_patterns": n1, "single_thread_saving_patterns": n2,
+                                         "multi_thread_yield_patterns": n3,
                                          "random_multi_thread": nrand, "total": len(cases)}
     return cases
 
